@@ -10,7 +10,7 @@ open Py Xs.Bind Xs.Bind.F1
 
 /-! ### reading the decidable side conditions -/
 
-structure MetaFacts (Γ : Ctx) (ci : ClassInfo) (m : XmlMeta) : Prop where
+structure MetaFacts (ns : Bool) (Γ : Ctx) (ci : ClassInfo) (m : XmlMeta) : Prop where
   clazz : m.clazz = ci.id
   nillable : m.nillable = false
   qne : m.qname ≠ []
@@ -21,15 +21,15 @@ structure MetaFacts (Γ : Ctx) (ci : ClassInfo) (m : XmlMeta) : Prop where
   attrs : ∀ var ∈ m.attributeVars, attrVarOK m ci var = true
   attrNodup : (m.attributeVars.map (·.qname)).Nodup
   body : match m.text with
-    | none => ∀ var ∈ m.elementVars, elemVarOK true Γ m ci var = true
+    | none => ∀ var ∈ m.elementVars, elemVarOK ns Γ m ci var = true
     | some tv => m.elementVars = [tv] ∧ textVarOK ci tv = true
   idxNodup : (m.elementVars.map (·.index)).Nodup
   nameNodup : ((m.attributeVars ++ m.elementVars).map (·.name)).Nodup
   fieldNodup : (ci.fields.map (·.name)).Nodup
   covered : ∀ f ∈ ci.fields, ∃ var ∈ m.attributeVars ++ m.elementVars, var.name = f.name
 
-theorem metaFacts_of {Γ : Ctx} {ci : ClassInfo} {m : XmlMeta} (h : metaF1 true Γ ci m = true) :
-    MetaFacts Γ ci m := by
+theorem metaFacts_of {ns : Bool} {Γ : Ctx} {ci : ClassInfo} {m : XmlMeta} (h : metaF1 ns Γ ci m = true) :
+    MetaFacts ns Γ ci m := by
   simp only [metaF1, Bool.and_eq_true, decide_eq_true_eq, Bool.not_eq_true', List.isEmpty_iff,
     List.all_eq_true, List.any_eq_true] at h
   obtain ⟨⟨⟨⟨⟨⟨⟨⟨⟨⟨⟨⟨⟨h1, h2⟩, h3⟩, h4⟩, h5⟩, h6⟩, h7⟩, h8⟩, h9⟩, h10⟩, h11⟩, h12⟩, h13⟩, h14⟩ := h
@@ -55,12 +55,12 @@ theorem metaFor_mem {ci : ClassInfo} {pns : Option Str} {m : XmlMeta}
       simp [hm] at h
       exact ⟨a.1, by rw [← h]; simp⟩
 
-theorem ctx_metaFacts {Γ : Ctx} (hΓ : ctxF1 Γ = true) {c : ClassId} {ci : ClassInfo}
+theorem ctx_metaFacts {ns : Bool} {Γ : Ctx} (hΓ : ctxF1G ns Γ = true) {c : ClassId} {ci : ClassInfo}
     (hfind : Γ.find c = some ci) {pns : Option Str} {m : XmlMeta}
-    (hm : ci.metaFor pns = some m) : MetaFacts Γ ci m := by
+    (hm : ci.metaFor pns = some m) : MetaFacts ns Γ ci m := by
   have hci : ci ∈ Γ.classes := List.mem_of_find?_eq_some hfind
   obtain ⟨p, hp⟩ := metaFor_mem hm
-  simp only [ctxF1, ctxF1G, List.all_eq_true, Bool.and_eq_true] at hΓ
+  simp only [ctxF1G, List.all_eq_true, Bool.and_eq_true] at hΓ
   exact metaFacts_of ((hΓ ci hci).2 (p, m) hp)
 
 theorem find_id {Γ : Ctx} {c : ClassId} {ci : ClassInfo} (h : Γ.find c = some ci) : ci.id = c := by
@@ -255,7 +255,7 @@ theorem genObj_unfold (e : BEnv) (Γ : Ctx) (cfg : SerCfg) (f : Nat) (c : ClassI
     genObj e Γ cfg (f + 1) (.obj c fields) pns oq false none = (do
       let attrs ← nextAttribute cfg m fields false none
       let vals ← nextValue m fields
-      let body ← vals.mapM (genField e Γ cfg f (targetUri (resolveQ oq m)))
+      let body ← vals.mapM (genField e Γ cfg f (targetUri m.qname))
       return [Ev.start (resolveQ oq m)] ++ attrs ++ body.flatten ++ [Ev.end (resolveQ oq m)]) := by
   have hfetch : Γ.fetch c pns none = .ok m := by
     simp only [metaOf] at hm
@@ -356,10 +356,10 @@ inductive ElemKind (Γ : Ctx) (m : XmlMeta) (var : XmlVar) : Prop
       (hd : if var.listElement then var.default = .listFactory else scalarDefault var.default t = true)
   | cls (c : ClassId) (m' : XmlMeta) (hc : var.clazz = some c) (ht : var.types = [.cls c])
       (hd : if var.listElement then var.default = .listFactory else var.default = .none)
-      (hm : metaOf Γ c (targetUri m.qname) = some m') (hns : nsAgree Γ m' var.qname = true)
+      (hm : metaOf Γ c (targetUri m.qname) = some m')
 
-theorem elemFacts_of {Γ : Ctx} {m : XmlMeta} {ci : ClassInfo} {var : XmlVar}
-    (hv : elemVarOK true Γ m ci var = true) :
+theorem elemFacts_of {ns : Bool} {Γ : Ctx} {m : XmlMeta} {ci : ClassInfo} {var : XmlVar}
+    (hv : elemVarOK ns Γ m ci var = true) :
     ElemFacts m var ∧ ElemKind Γ m var ∧ fieldAgrees ci var = true := by
   simp only [elemVarOK, varBase, Bool.and_eq_true, decide_eq_true_eq, Bool.not_eq_true',
     VarCore.isElement, Option.isNone_iff_eq_none] at hv
@@ -379,7 +379,7 @@ theorem elemFacts_of {Γ : Ctx} {m : XmlMeta} {ci : ClassInfo} {var : XmlVar}
       subst hcc
       split at hm
       · rename_i m' hm'
-        refine ElemKind.cls c m' hc ht ?_ hm' hm
+        refine ElemKind.cls c m' hc ht ?_ hm'
         split at hd <;> simp_all
       · cases hm
     · cases hkind
